@@ -11,7 +11,7 @@ PROPS = {
         theorems=T("C16", "inv_init", "inv_step", "inv_reachable", "stream_refines", "no_fault", "no_double_free", "no_leak",
                    "expand_terminates", "expand_never_stuck", "to_string_eq", "to_string_reference", "text_rendering_std",
                    "moved_from_is_empty_stream", "moved_from_is_empty_stream_assign",
-                   "append_fault_safe", "append_char_fault_safe", "step_fault_safe", "pinned_signed_number_partial_append", "repaired_signed_number_unchanged",
+                   "append_fault_safe", "append_char_fault_safe", "step_fault_safe", "int_insertion_appends_canonical", "pinned_signed_number_partial_append", "repaired_signed_number_unchanged",
                    "pinned_moved_from_append_stuck", "pinned_move_assigned_from_append_stuck", "pinned_moved_from_keeps_size",
                    "pinned_moved_from_aliases", "repaired_same_histories"),
         rule="histories over a pool of 3 string_streams in raw storage, snapshot (size(), bytes or FNV digest of raw_buffer()[0,size()), "
@@ -24,7 +24,8 @@ PROPS = {
              "either side; (menu) every sequence of 2 (quick) / 3 (thorough) entries of a 26-entry menu over three live streams in 5x3x2 size-class "
              "combinations; (random) seeded histories of 30 operations. non-trivial = more than 3 operations",
         exhaustive={"quick": False, "thorough": False},
-        partial="numeric operator<< overloads: the digits are an input of the model (rendering belongs to C12/C13); the check is that they are appended. "
+        partial="numeric operator<< overloads: the digits are a parameter of the machine model; for the integer overloads int_insertion_appends_canonical ties the "
+                "parameter to C12's proof that the stream's formatter yields the canonical decimal text, for float/double the rendering is libc's (C13). "
                 "the most negative values of int/long/long long are generated (defect #12 is repaired). size_t wrap-around of m_size + added_size "
                 "(streams of 2^63 bytes) is outside the model.",
         assumptions=["self-move-assignment of a stream is outside the property and is not generated",
